@@ -23,7 +23,9 @@ NewVal(ty, a) == CASE ty = "date" -> Date(a.y, a.m, a.d) [] ty = "time" -> TimeO
 Expected(e) ==
   LET ty == TyOf(e.op)  k == KindOf(e.op)
   IN CASE k = "with" -> With(ty, RecvOf(e), e.args.p, Ovf(e.args))
-       [] k = "from_partial" -> IF ty = "zoned" THEN FromPartialZoned(e.args.p, Ovf(e.args), OffsetOf(e.args.tz))
+       \* an explicit offset (minutes) must be the zone's own under the default offset option (reject); the record's own errors come first
+       [] k = "from_partial" -> IF ty = "zoned" THEN LET x == FromPartialZoned(e.args.p, Ovf(e.args), OffsetOf(e.args.tz))
+                                                      IN IF x.kind = "ok" /\ Has(e.args, "xoff") /\ e.args.xoff * 60 # OffsetOf(e.args.tz) THEN ErrRange ELSE x
                                 ELSE FromPartial(ty, e.args.p, Ovf(e.args))
        [] k = "new" -> New(ty, NewVal(ty, e.args), Ovf(e.args))
 ClsOf(e) ==
